@@ -155,6 +155,14 @@ int main()
     else if(hxIs(l, "assign", 2)) { d = hxBytes(l.tok[2], len); var[v]->assign(d, len); }
     else if(hxIs(l, "prepend", 2)) { d = hxBytes(l.tok[2], len); var[v]->prepend(d, len); }
     else if(hxIs(l, "prependb", 2)) var[v]->prepend(*var[w]);
+    else if(hxIs(l, "prependsub", 3))
+    {
+      // a sub-range of the buffer's own window as (pointer, size) argument; clamped to the window
+      usize size = var[v]->size(), off = hxNum(l, 2), n = hxNum(l, 3);
+      if(off > size) off = size;
+      if(n > size - off) n = size - off;
+      var[v]->prepend((const byte*)*var[v] + off, n);
+    }
     else if(hxIs(l, "append", 2)) { d = hxBytes(l.tok[2], len); var[v]->append(d, len); }
     else if(hxIs(l, "appendb", 2)) var[v]->append(*var[w]);
     else if(hxIs(l, "resize", 2)) var[v]->resize(hxNum(l, 2));
